@@ -160,3 +160,74 @@ func verifC10MemConcurrent() {
 	verifAssert("conc/final-is-a-written-value", okF)
 	verifCover("c10/conc")
 }
+
+// verifC10MemSequences: per-goroutine operation SEQUENCES. One goroutine writes v1 then v2 to block
+// 0, the main goroutine reads it twice (Read, then ReadTo into a dirty buffer) while a third asks for
+// the size. A total order respecting real time and both program orders allows exactly the pairs
+// (init,init) (init,v1) (init,v2) (v1,v1) (v1,v2) (v2,v2): a later read never goes back.
+func verifC10MemSequences() {
+	d := NewMemDisk(2)
+	init := verifNondetBytes("init", int(BlockSize))
+	v1 := verifNondetBytes("v1", int(BlockSize))
+	v2 := verifNondetBytes("v2", int(BlockSize))
+	d.Write(0, init)
+	var sz uint64
+	var wg sync.WaitGroup
+	wg.Add(2)
+	verifRaceDetect(true)
+	go func() {
+		d.Write(0, v1)
+		d.Write(0, v2)
+		wg.Done()
+	}()
+	go func() {
+		sz = d.Size()
+		wg.Done()
+	}()
+	r1 := d.Read(0)
+	r2 := verifNondetBytes("dirty", int(BlockSize))
+	d.ReadTo(0, r2)
+	wg.Wait()
+	verifRaceDetect(false)
+	verifAssert("seq/no-data-race", verifRaces() == 0)
+	verifAssert("seq/size", sz == 2)
+	i1, a1, b1 := verifBytesEq(r1, init), verifBytesEq(r1, v1), verifBytesEq(r1, v2)
+	i2, a2, b2 := verifBytesEq(r2, init), verifBytesEq(r2, v1), verifBytesEq(r2, v2)
+	ok := verifOr(verifAnd(i1, verifOr(i2, verifOr(a2, b2))), verifOr(verifAnd(a1, verifOr(a2, b2)), verifAnd(b1, b2)))
+	verifAssert("seq/reads-follow-one-total-order", ok)
+	verifAssert("seq/final-is-the-last-write", verifBytesEq(d.Read(0), v2))
+	verifCover("c10/sequences")
+}
+
+// verifC10FileConcurrent: the file-backed disk under the scheduler with preemption at every system
+// call. Distinct addresses never interfere (a writer of block 1 runs against a write+read of block
+// 0); operations ordered in real time on one address are observed in that order (a read started
+// after a write returned sees it, whatever the other goroutine does).
+func verifC10FileConcurrent() {
+	d, err := NewFileDisk(verifPath("disk.img"), 3)
+	verifAssume(err == nil)
+	va := verifNondetBytes("va", int(BlockSize))
+	vb := verifNondetBytes("vb", int(BlockSize))
+	vc := verifNondetBytes("vc", int(BlockSize))
+	var rb Block
+	var wg sync.WaitGroup
+	wg.Add(1)
+	verifKernelPreempt(true)
+	verifRaceDetect(true)
+	go func() {
+		d.Write(1, vb)
+		rb = d.Read(1)
+		wg.Done()
+	}()
+	d.Write(0, va)
+	ra := d.Read(0) // ordered after the write of va in real time
+	d.Write(0, vc)
+	wg.Wait()
+	verifRaceDetect(false)
+	verifKernelPreempt(false)
+	verifAssert("fileconc/no-data-race", verifRaces() == 0)
+	verifAssert("fileconc/real-time-order-on-one-address", verifBytesEq(ra, va))
+	verifAssert("fileconc/other-goroutine-reads-its-own-write", verifBytesEq(rb, vb))
+	verifAssert("fileconc/distinct-addresses-do-not-interfere", verifAnd(verifBytesEq(d.Read(0), vc), verifAnd(verifBytesEq(d.Read(1), vb), verifBytesEq(d.Read(2), make([]byte, BlockSize)))))
+	verifCover("c10/fileconc")
+}
